@@ -582,6 +582,8 @@ func init() {
 		c.Res.Rule = smtpRule + "; plus every dialogue of the cut profile replayed with the connection cut after EVERY byte offset (with and without waiting for the last reply)"
 		runSmtpProfile(c, smtpProfile{name: "c03", n: [2]int{800, 30000}, errRate: 35, namings: allNamings})
 		runSmtpProfile(c, smtpProfile{name: "c03pipe", n: [2]int{500, 15000}, errRate: 10, namings: []string{"local"}, pipelined: true})
+		// small size limits: a transaction refused for its size (552) is over — its envelope must not reach the next one
+		runSmtpProfile(c, smtpProfile{name: "c03small", n: [2]int{300, 10000}, errRate: 6, smallMax: true, bigBody: true, namings: []string{"local", "full"}})
 		runSmtpProfile(c, smtpProfile{name: "c03cut", n: [2]int{6, 200}, errRate: 4, cuts: -1, namings: []string{"local"}})
 		if f, ok := extra["C03"]; ok {
 			f(c)
